@@ -17,6 +17,21 @@ CHECKS = {
         design="§7 C18"),
 }
 
+CHECKS["C20"] = dict(
+    text="Two layers. (1) Machine-checked proof (Lean 4) about the explicit model of the library's process-wide tolerance state: "
+         "the tolerances are fixed by the first design and never change afterwards, the tolerance any later operation sees is one "
+         "proposed by the history or by itself, and a tolerance-reading operation (touch / overlap tests, abstract form for any body) "
+         "on an input that is Robust for the interval of proposed tolerances answers exactly as in a fresh process, for every history "
+         "(induction over the operation list). The ROBDD-store half is C07's store theorems. (2) The observation the property names, "
+         "run on every check: digest of a probed operation in a fresh forked interpreter vs after a random history on unrelated "
+         "designs within x1000 in scale (6 operation kinds), plus bit-exact correspondence of the observed tolerance state with the "
+         "model. The unchanged code violates the property for non-Robust designs (known finding C20-sticky-tolerance-...); the "
+         "theorems carry exactly that hypothesis, so the claim is partial.",
+    note="Trusted: Lean kernel + Mathlib (standard axioms); the model covers only the Rectangle tolerance state — absence of any other "
+         "leaking state is established by the differential runs, not proved; sqrt enters as a monotone parameter; exact arithmetic.",
+    technique="Lean 4 invariant over operation histories (sticky tolerance state) + fresh-fork vs after-history differential runs",
+    design="§7 C20")
+
 NOT_APPLICABLE = {}
 
 def main():
